@@ -113,6 +113,40 @@ func runAC(c *Ctx, s *Sink) {
 				if (cb.Op == token.LSS && K == N) || (cb.Op == token.LEQ && K == N-1) {
 					covered = true
 				}
+				if !covered && K < N && cb.Op == token.LSS && N-K <= 4 {
+					// the cells the loop leaves out may be handled one by one: every table indexed by the induction
+					// variable in the loop is then read with each of the remaining constant indexes in the function
+					tables := map[string]bool{}
+					ast.Inspect(f.Body, func(m ast.Node) bool {
+						if ix, ok := m.(*ast.IndexExpr); ok {
+							if id, ok := ast.Unparen(ix.Index).(*ast.Ident); ok && info.ObjectOf(id) == ivo {
+								tables[types.ExprString(ix.X)] = true
+							}
+						}
+						return true
+					})
+					explicit := true
+					for t := range tables {
+						for idx := K; idx < N; idx++ {
+							found := false
+							ast.Inspect(fd.Body, func(m ast.Node) bool {
+								if ix, ok := m.(*ast.IndexExpr); ok && types.ExprString(ix.X) == t {
+									if v, ok := constInt(info, ix.Index); ok && v == idx {
+										found = true
+									}
+								}
+								return true
+							})
+							if !found {
+								explicit = false
+							}
+						}
+					}
+					if explicit && len(tables) > 0 {
+						s.Pass(nil, key, f.Pos(), fmt.Sprintf("the loop covers the first %d entries of %s, the remaining %d are read one by one in the function", K, arrName, N-K))
+						return true
+					}
+				}
 				if !covered {
 					s.Fail(nil, key, f.Pos(), fmt.Sprintf("the loop visits %d entries of %s, which has %d: the last 4-mer code(s) are never counted", K, arrName, N))
 					return true
